@@ -239,6 +239,124 @@ def pat_binds_local(p):
     return [b for b in pat_binds(p)]
 
 
+FOLDS = ("to_lowercase", "to_uppercase", "to_ascii_lowercase", "to_ascii_uppercase")
+
+
+def d6(rep, src):
+    """Quoted identifiers keep their case: an identifier's text is case-folded only where its quote_style was tested and found absent."""
+    from .core import find, walk, show, path_of
+
+    rep.rule(
+        "D6",
+        "sql/*.rs (non-test): every case fold of an identifier's text (`<id>.value.to_lowercase()` and the like) sits in the branch of a test of the SAME identifier's `quote_style` "
+        "that is taken when the identifier is not quoted (`if let Some(_) = id.quote_style {..} else {FOLD}`, `match id.quote_style { None => FOLD, .. }`, `is_none()` / `is_some()` forms)",
+        floor=2,
+        necessary="the renderer writes every name quoted (`WITH \"map_x\" (\"Total\", \"b\") AS ..`); a reader that folds a quoted name gives the re-parsed relation the schema {total, b}: "
+        "not the output schema of the relation the text was rendered from",
+    )
+
+    def norm(e):
+        while True:
+            if e["k"] in ("ref", "paren") or (e["k"] == "unary" and e["op"].strip() in ("&", "*")):
+                e = e["e"]
+            elif e["k"] == "mcall" and e["m"] in ("clone", "as_str", "to_string", "to_owned", "as_ref", "borrow") and not e["args"]:
+                e = e["recv"]
+            else:
+                return e
+
+    def txt(e):
+        return show(norm(e), 0).replace(" ", "")
+
+    def qs_base(e):
+        """`B.quote_style` (through & / clone / as_ref) -> text of B"""
+        e = norm(e)
+        if e["k"] == "field" and e.get("name") == "quote_style":
+            return txt(e["e"])
+        return None
+
+    def test_of(cond):
+        """-> (base, branch in which the identifier is NOT quoted: 'then' | 'else') or None"""
+        c = cond
+        while c["k"] == "paren":
+            c = c["e"]
+        if c["k"] == "letcond":
+            b = qs_base(c["e"])
+            if b is None:
+                return None
+            p = c["pat"]
+            while p["k"] == "ref":
+                p = p["pat"]
+            if p["k"] == "tuplestruct" and p["path"]["segs"][-1] == "Some":
+                return (b, "else")
+            if (p["k"] == "path" and p["segs"][-1] == "None") or (p["k"] == "ident" and p["name"] == "None"):
+                return (b, "then")
+            return None
+        if c["k"] == "unary" and c["op"].strip() == "!":
+            t = test_of(c["e"])
+            return (t[0], "else" if t[1] == "then" else "then") if t else None
+        if c["k"] == "mcall" and c["m"] in ("is_some", "is_none") and not c["args"]:
+            b = qs_base(c["recv"])
+            if b is not None:
+                return (b, "then" if c["m"] == "is_none" else "else")
+        return None
+
+    sites = []
+
+    def descend(n, unq):
+        if isinstance(n, list):
+            for x in n:
+                descend(x, unq)
+            return
+        if not isinstance(n, dict):
+            return
+        k = n.get("k")
+        if k == "if":
+            t = test_of(n["cond"])
+            descend(n["cond"], unq)
+            descend(n["then"], unq | {t[0]} if t and t[1] == "then" else unq)
+            if n.get("else") is not None:
+                descend(n["else"], unq | {t[0]} if t and t[1] == "else" else unq)
+            return
+        if k == "match":
+            b = qs_base(n["e"])
+            descend(n["e"], unq)
+            seen_some = False
+            for a in n["arms"]:
+                p = a["pat"]
+                while p["k"] == "ref":
+                    p = p["pat"]
+                none_arm = (p["k"] == "path" and p["segs"][-1] == "None") or (p["k"] == "ident" and p["name"] == "None")
+                if p["k"] == "tuplestruct" and p["path"]["segs"][-1] == "Some" and all(e["k"] in ("wild", "ident") for e in p["elems"]):
+                    seen_some = True
+                rest_arm = p["k"] == "wild" and seen_some
+                if a.get("guard"):
+                    descend(a["guard"], unq)
+                descend(a["body"], unq | {b} if b is not None and (none_arm or rest_arm) and not a.get("guard") else unq)
+            return
+        if k == "mcall" and n["m"] in FOLDS and not n["args"]:
+            r = norm(n["recv"])
+            if r["k"] == "field" and r.get("name") == "value":
+                sites.append((n, txt(r["e"]), txt(r["e"]) in unq))
+        for key, v in n.items():
+            if key in ("k", "l"):
+                continue
+            if isinstance(v, (dict, list)):
+                descend(v, unq)
+
+    per_fn = {}
+    for f in src.fns:
+        if not f.file.startswith("sql/") or f.test or not f.body:
+            continue
+        sites.clear()
+        descend(f.body, frozenset())
+        for n, base, ok in sites:
+            k = per_fn[(f.qual, base)] = per_fn.get((f.qual, base), 0) + 1
+            key = "%s@fold(%s.value)%s" % (f.qual, base, "" if k == 1 else "#%d" % k)
+            rep.instance("D6", key, {"fn": f.qual, "identifier": base, "fold": n["m"], "under_unquoted_test": ok})
+            if not ok:
+                rep.violation("D6", key, "%s folds the case of `%s.value` with .%s() without having tested `%s.quote_style`: a quoted name loses its case" % (f.qual, base, n["m"], base), "src/%s:%d" % (f.file, n["l"]))
+
+
 def run(rep):
     rep.explanation = (
         "Inventory by reachability over the instantiation-aware call graph of crate qrlew (rustc MIR, cargo +nightly check --lib). "
@@ -434,4 +552,5 @@ def run(rep):
     _src = _Src(facts.src_facts())
     _c08.e19(rep, _src)
     _c08.e14(rep, _src)
+    d6(rep, _src)
     rep.extra["observations_rewrite_scope"] = obs[:60]
